@@ -273,9 +273,10 @@ Qed.
 (* ------------------------------------------------------------------ the Bezier step rule *)
 (* append_cubic / append_quad / append_bezier:
        curvature = fabs(dc.cross(d2c)) / (len_dc * len_dc * len_dc);      len_dc = sqrt(|dc|^2)
-       angle = 2 * acos(1 - curvature * tolerance);
-   acos is defined on [-1, 1]; its argument here never exceeds 1; it is below -1 exactly when
-   cross^2 * tol^2 > 4 * (|dc|^2)^3  -- the rational condition `step_rule_nan_condition` of
+       const double cos_half = 1 - curvature * tolerance;
+       double angle = 2 * (cos_half < -1 ? M_PI : acos(cos_half));
+   acos is defined on [-1, 1]; cos_half never exceeds 1; it is below -1 (the clamp branch) exactly
+   when cross^2 * tol^2 > 4 * (|dc|^2)^3  -- the rational condition `step_rule_clamp_condition` of
    Bezier.v (n2 = |dc|^2 > 0, c = dc x d2c). *)
 Theorem step_rule_rational_lemma : forall n2 c tol : R, 0 < n2 -> 0 < tol ->
   let len := sqrt n2 in
@@ -309,6 +310,34 @@ Proof.
   - apply Rmult_lt_reg_r in H; [|assumption].
     assert (2 < x); [|lra].
     destruct (Rlt_le_dec 2 x) as [G|G]; [assumption|]. exfalso. nra.
+Qed.
+
+(* the step angle as the C++ computes it since fix 66f871b *)
+Definition step_angle (curvature tol : R) : R :=
+  let c := 1 - curvature * tol in
+  2 * (if Rlt_dec c (-1) then PI else acos c).
+
+(* the step is always defined: whenever acos is evaluated its argument lies in [-1, 1]; the angle
+   lies in [0, 2 pi] and is positive as soon as curvature * tol > 0, so dt = angle / (curvature *
+   len_dc) is a finite positive number (no NaN step: F11 closed) *)
+Theorem step_rule_defined_lemma : forall curvature tol : R, 0 <= curvature -> 0 <= tol ->
+  let c := 1 - curvature * tol in
+  (~ c < -1 -> -1 <= c <= 1)
+  /\ 0 <= step_angle curvature tol <= 2 * PI
+  /\ (0 < curvature * tol -> 0 < step_angle curvature tol).
+Proof.
+  intros k tol Hk Ht c.
+  assert (Hkt : 0 <= k * tol) by (apply Rmult_le_pos; assumption).
+  pose proof PI_RGT_0 as Hpi.
+  split; [intros Hc; unfold c in *; lra|].
+  unfold step_angle. fold c.
+  destruct (Rlt_dec c (-1)) as [Hc|Hc].
+  - split; [lra|]. intros _. lra.
+  - pose proof (acos_bound c) as [A0 A1].
+    split; [lra|]. intros Hpos.
+    assert (Hb : -1 <= c <= 1) by (unfold c in *; lra).
+    destruct (Req_dec (acos c) 0) as [E|E]; [|lra].
+    pose proof (cos_acos c Hb) as Hcos. rewrite E, cos_0 in Hcos. unfold c in Hcos. lra.
 Qed.
 
 Lemma Rabs_le_inv' a b : Rabs a <= b -> - b <= a <= b.
